@@ -184,6 +184,13 @@ func (sms *sqlMetadataStore) AppendObject(ctx context.Context, tx *sql.Tx, bucke
 		return nil, err
 	}
 
+	if oldObjectEntity != nil && (oldObjectEntity.IsDeleteMarker || (oldObjectEntity.VersionID != nil && *oldObjectEntity.VersionID != "null")) {
+		// Versioning-suspended bucket whose current entry is a delete marker or a
+		// non-null version: writes only ever replace the null version, so the
+		// append is stored as the (new) null version instead of rewriting that row.
+		return sms.PutObject(ctx, tx, bucketName, obj, nil)
+	}
+
 	if oldObjectEntity != nil {
 		existingParts, err := sms.partRepository.FindPartsByObjectIdOrderBySequenceNumberAsc(ctx, tx, *oldObjectEntity.Id)
 		if err != nil {
